@@ -48,10 +48,16 @@ def run_property(prop: str, repo_root: str, tier: str, seed: int, *, write=True,
     try:
         repo = Repo(repo_root)
         ctx = Ctx(repo, prop, tier=tier, seed=seed)
+        rule_errors = []
         for rid, func, floor in mod.RULES:
-            func(ctx, rid)
-            if floor:
-                ctx.floor(rid, floor)
+            # a rule that cannot decide (AnalysisError) does not stop the other rules: a violation established independently by
+            # another rule is still a violation; only when nothing is violated does the undecided rule make the run exit 2
+            try:
+                func(ctx, rid)
+                if floor:
+                    ctx.floor(rid, floor)
+            except AnalysisError as e:
+                rule_errors.append(f"{rid}: {e}" if not str(e).startswith(rid) else str(e))
         known = load_known()
         seen_keys = set()
         for ob in ctx.obs:
@@ -66,6 +72,12 @@ def run_property(prop: str, repo_root: str, tier: str, seed: int, *, write=True,
                 out.append(f"KNOWN-FINDING: property={prop} rule={ob.rule} {ob.construct} @ {ob.loc} — {k.get('what_fails', ob.msg)}")
             else:
                 violations.append(ob)
+        if rule_errors and not violations:
+            error = "; ".join(rule_errors)
+        elif rule_errors:
+            for e_ in rule_errors:
+                out.append(f"ANALYSIS-NOTE property={prop}: rule could not decide: {e_.splitlines()[0]}")
+            ctx.notes.append("rules that could not decide on this tree: " + " | ".join(rule_errors))
     except AnalysisError as e:
         error = str(e)
     except Exception as e:     # the checker itself failed: never a VIOLATION
